@@ -183,6 +183,18 @@ package lib
 //@   invariant @C05: stats.BytesUp + stats.BytesDown == old(stats.BytesUp + stats.BytesDown) + nwritten(dst) - old(nwritten(dst))
 //@   modifies elems(buf), stats.BytesUp, stats.BytesDown, stats.ClientConnErr, stats.CovertConnErr, obj(stats.proxyStats), obj(&statInstance), rxh(src), txh(dst), nread(src), rdEnded(src), nwritten(dst), nwrites(dst), wfail(dst), dlSet(src), dlSet(dst), now()
 
+// The close helper of a direction (the closure closeConn; it runs once inline for the destination and once in a goroutine
+// of its own for the source, so it is under contract by itself, for either argument): a TCP connection is closed with
+// a POSITIVE linger time. A linger of zero makes close(2) discard whatever was written to the connection but not yet
+// sent and reset the peer - bytes the relay accepted from the other side would be lost ("without loss ... up to the
+// point where one side fails"), and which of the two helpers closes a connection first is a scheduling accident.
+//@ func halfPipe$2(c net.Conn, isSrc bool)
+//@   requires addrFree(errConnReset) && addrFree(errConnRefused) && addrFree(errConnAborted) && addrFree(errUnreachable) && addrFree(errConnTimeout) && addrFree(errNetOp) && addrFree(io.ErrShortWrite)
+//@   requires c != nil
+//@   atcall TCPConn).SetLinger before: assert @C05: arg1 > 0
+//@   ensures @C05: closed(c)
+//@   inline
+
 // (Proxy itself is not under contract yet: the spawn-site preconditions of halfPipe did not discharge in time.)
 
 //@ ghost func idStringOf(reg *DecoyRegistration) string
@@ -627,7 +639,8 @@ package lib
 //@   cancellable @C09: ctx
 // shutdown: the hand-over channel is closed only after every worker has returned (a worker that is still running
 // would receive the zero value from the closed channel and panic on it), and the parent is signalled last
-//@   atcall WaitGroup).Wait before: snap workersGone := true
+// (the ! prefix: where Wait is executed, not where a defer schedules it: deferred calls run last-scheduled first)
+//@   atcall !WaitGroup).Wait before: snap workersGone := true
 //@   atcall <close> before: assert @C09: defined(workersGone)
 //@   ensures @C09: true
 //@   checks structure
